@@ -315,7 +315,7 @@ theorem app_skip (w : Wr) (d1 d2 : List (Nat × Nat)) (h : Wr.within w d2) : Wr.
 
 theorem sockRecv_within (fds : Fds) (m : Mem) (fd iovs cnt fl res ro : Nat) (hi : iovs < 4294967296)
     (hm : m.size ≤ 4294967296) :
-    Within (sockRecv true fds m fd iovs cnt fl res ro) (iovRegions m iovs cnt 0 ++ [(res, 4), (ro, 2)]) := by
+    Within (sockRecv true true fds m fd iovs cnt fl res ro) (iovRegions m iovs cnt 0 ++ [(res, 4), (ro, 2)]) := by
   have hres : ∀ w ∈ optRegion m res 4, Wr.within w (iovRegions m iovs cnt 0 ++ [(res, 4), (ro, 2)]) :=
     fun w hw => app_skip _ _ _ (optRegion_within m res 4 _ w hw)
   have hro : ∀ w ∈ optBytes m ro [0, 0], Wr.within w (iovRegions m iovs cnt 0 ++ [(res, 4), (ro, 2)]) :=
@@ -362,7 +362,8 @@ theorem sockRecv_within (fds : Fds) (m : Mem) (fd iovs cnt fl res ro : Nat) (hi 
                   · exact hro w hw
       · split
         · exact within_rE _ _
-        · refine within_cons _ _ _ ?_ (within_nil _)
+        · simp only [Bool.not_true, Bool.false_and, Bool.false_eq_true, if_false]
+          refine within_cons _ _ _ ?_ (within_nil _)
           intro w hw
           simp only [List.mem_append] at hw
           rcases hw with (hw | hw) | hw
